@@ -1,2 +1,2 @@
 import NA.Core.IOUtil
-import NA.Drv.All
+import NA.Props.C13
